@@ -30,6 +30,9 @@ def schedules(c, with_display=True):
         try:
             for sch in get_schedules(bytes.fromhex(c["msg"])):
                 if isinstance(sch.days, set): sch.days.symmetric_difference_update({DAYS[2], DAYS[5]})
+                for name in ("start_time", "end_time", "duration", "display", "schedule_id"):
+                    try: setattr(sch, name, "scribbled")
+                    except Exception: pass
             again = "|".join(show_schedule(s, with_display) for s in sorted(get_schedules(bytes.fromhex(c["msg"])), key=lambda s: int(s.schedule_id)))
         except Exception as e: again = "raised " + type(e).__name__
         return first if again == first else "%s (listed again after the application edited the day sets of the first listing; first: %s)" % (again, first)
